@@ -20,8 +20,8 @@ import (
 	"github.com/prometheus/client_golang/prometheus"
 	config_util "github.com/prometheus/common/config"
 	"github.com/prometheus/prometheus/config"
-	"github.com/prometheus/prometheus/model/labels"
 	pdiscovery "github.com/prometheus/prometheus/discovery"
+	"github.com/prometheus/prometheus/model/labels"
 	"tkestack.io/kvass/pkg/prom"
 	"tkestack.io/kvass/pkg/sidecar"
 	"tkestack.io/kvass/pkg/target"
@@ -32,9 +32,9 @@ func init() { commands["inject"] = cmdInject }
 type ijCase struct {
 	Am    string   `json:"am"`
 	Rules bool     `json:"rules"`
-	Jobs []string `json:"jobs"`
-	Rw   []string `json:"rw"`
-	Rr   []string `json:"rr"`
+	Jobs  []string `json:"jobs"`
+	Rw    []string `json:"rw"`
+	Rr    []string `json:"rr"`
 }
 type ijSlot struct {
 	Sec string `json:"sec"`
